@@ -83,3 +83,17 @@ Proof.
   rewrite A. cbn [bind]. rewrite B. reflexivity.
 Qed.
 End Accepted.
+
+(** resolve_jumps: the displacement written after a jump opcode makes the x86 jump (next instruction address + rel32)
+    land on the recorded target location, for code buffers below 2 GiB; and the computation does not overflow *)
+Theorem jit_rel32_lands offset_loc target_loc :
+  0 <= offset_loc -> offset_loc + 4 < 2 ^ 31 -> 0 <= target_loc < 2 ^ 31 ->
+  exists rel, gen_jit_rel32 offset_loc target_loc = Ok rel /\ (offset_loc + 4) + rel = target_loc /\ - 2 ^ 31 <= rel < 2 ^ 31.
+Proof.
+  intros H0 H1 H2. unfold gen_jit_rel32.
+  assert (C : forall x, - 2 ^ 31 <= x < 2 ^ 31 -> cast I32 x = x) by (intros x Hx; apply norm_idem; unfold in_ty, tmin, tmax; cbn [signed bits]; fold_pows; lia).
+  rewrite !C by (fold_pows; lia). unfold cadd, csub.
+  rewrite chk_ok by (unfold in_ty, tmin, tmax; cbn [signed bits]; fold_pows; lia). cbn [bind]. cbv zeta.
+  rewrite chk_ok by (unfold in_ty, tmin, tmax; cbn [signed bits]; fold_pows; lia). cbn [bind].
+  eexists; split; [reflexivity|]. fold_pows. lia.
+Qed.
